@@ -105,6 +105,9 @@ Templates ==
       T(<<"info(", "$v", ", {k=\"v1\"} offset 30s)">>, "v", TRUE),
       T(<<"info(", "$v", ", {__name__=\"target_info\"} @ end())">>, "v", TRUE),
       T(<<"timestamp((", "$v", "))">>, "v", TRUE),
+      \* the bare selector as a query of its own (a no-op reduction)
+      T(<<"", "$m", "">>, "m", TRUE),
+      T(<<"", "$v", "">>, "v", TRUE),
       T(<<"max_of(", "$s", ", ", "$s", ")">>, "s", TRUE),
       T(<<"min_of(", "$s", ", ", "$s", ")">>, "s", TRUE),
       T(<<"-", "$v">>, "v", FALSE),
@@ -162,11 +165,14 @@ MaxD(args) == IF args = <<>> THEN 0
 Params == {[k |-> "i", t |-> 100, e |-> 100, st |-> 0],
            [k |-> "i", t |-> 0, e |-> 0, st |-> 0],
            [k |-> "i", t |-> 290, e |-> 290, st |-> 0],
+           [k |-> "i", t |-> 300, e |-> 300, st |-> 0],
            [k |-> "i", t |-> 100000, e |-> 100000, st |-> 0],
            [k |-> "r", t |-> 0, e |-> 300, st |-> 30],
            [k |-> "r", t |-> 50, e |-> 250, st |-> 7],
            [k |-> "r", t |-> 100, e |-> 100, st |-> 60],
-           [k |-> "r", t |-> 200, e |-> 500, st |-> 100]}
+           [k |-> "r", t |-> 200, e |-> 500, st |-> 100],
+           [k |-> "r", t |-> 0, e |-> 300, st |-> 100],
+           [k |-> "r", t |-> 10, e |-> 290, st |-> 140]}
 
 -----------------------------------------------------------------------------
 \* ---- EnumMode: every template, applied to each combination of a few representative leaves, as an instant
@@ -178,7 +184,11 @@ Rep(ty, multi) ==
                     "c[1m] anchored"}
     [] ty = "s" -> {"2", "NaN"}
     [] ty = "t" -> {"\"a\""}
-RepParams == {[k |-> "i", t |-> 100, e |-> 100, st |-> 0], [k |-> "r", t |-> 0, e |-> 300, st |-> 30]}
+RepParams == {[k |-> "i", t |-> 100, e |-> 100, st |-> 0], [k |-> "i", t |-> 290, e |-> 290, st |-> 0],
+              [k |-> "r", t |-> 0, e |-> 300, st |-> 30],
+              \* a step larger than the lookback delta (1m) and than the ranges of the leaves: the engine has to
+              \* seek its iterators between steps instead of walking them
+              [k |-> "r", t |-> 0, e |-> 300, st |-> 100]}
 EnumQueries ==
   UNION {LET hs == Holes(tp)
              n  == Len(hs)
